@@ -125,6 +125,8 @@ theorem rsInv_step {g : Graph} (hi : RsInv H g) (u : Upd) : RsInv H (g.step H u)
     simp only [Graph.step]
     have h0 : RsInv H { g with polKeys := C02.mset nid key g.polKeys } := rsInv_frame hi rfl rfl rfl
     exact rsInv_resStep (rsInv_arcPolicy h0 nid v) _
+  | passthru c key v =>
+    exact rsInv_quietRel (quietRel_emit g _ (by intro x hx; simp at hx; subst hx; cases v <;> rfl)) hi
   | other => exact hi
 
 /-- the PolicyResolver's flush only makes `OnEndpointTierUpdate` calls -/
